@@ -241,7 +241,72 @@ def read_tables():
     if not isinstance(val.VALIDATOR, dict):
         raise TypeError("VALIDATOR")
     T.validator_keys = list(val.VALIDATOR.keys())
+    lookalikes(T)
     return T
+
+
+XML_NS = "http://www.w3.org/XML/1998/namespace"
+FOREIGN_NS = "urn:pv:foreign"
+WRONG_NS = "urn:pv:wrong-ns"
+
+
+def split_name(s):
+    """'{ns}local' -> (ns, local); 'local' -> (None, local)"""
+    if s.startswith("{") and "}" in s:
+        ns, local = s[1:].split("}", 1)
+        return ns, local
+    return None, s
+
+
+def lookalikes(T):
+    """C12: for every class, names that LOOK LIKE a declared attribute / child tag (same local name)
+    without being one: qualified with the element's own namespace, a foreign namespace, the xml
+    namespace, or not qualified at all.  Deterministic from the tables; interned here so that
+    Gen/SchemaNames.v (the intern table given back to Coq) contains them.
+    T.look_attrs[cid] / T.look_kids[cid] = [(declared key id, kind, look-alike name id)]"""
+    T.look_attrs, T.look_kids = [], []
+    for row in T.rows:
+        declared = {T.names[a[0]] for a in row["attrs"]}
+        la = []
+        for a in row["attrs"]:
+            ns, local = split_name(T.names[a[0]])
+            cands = []
+            if row["ns"]:
+                cands.append(("own-ns", "{%s}%s" % (row["ns"], local)))
+            cands.append(("foreign-ns", "{%s}%s" % (FOREIGN_NS, local)))
+            cands.append(("xml-ns", "{%s}%s" % (XML_NS, local)))
+            if ns is not None:
+                cands.append(("bare", local))
+            for kind, name in cands:
+                if name not in declared:
+                    la.append((a[0], kind, T.n(name)))
+        T.look_attrs.append(la)
+        keys = {T.names[c[0]] for c in row["children"]}
+        lk = []
+        for c in row["children"]:
+            ns, local = split_name(T.names[c[0]])
+            cands = [("wrong-ns", "{%s}%s" % (WRONG_NS, local)), ("bare", local)]
+            if row["ns"] and row["ns"] != ns:
+                cands.append(("parent-ns", "{%s}%s" % (row["ns"], local)))
+            for kind, name in cands:
+                if name not in keys:
+                    lk.append((c[0], kind, T.n(name)))
+        T.look_kids.append(lk)
+
+
+def render_names(T):
+    """coq/Gen/SchemaNames.v: the intern table (id -> text) and the look-alike lists"""
+    head = ("(* GENERATED from /repo by harness/translate_schema.py on every run - do not edit *)\n"
+            "From PV Require Import Lib.Base.\nOpen Scope N_scope.\n\n"
+            "(* name_strings[i] = the text of the interned name i (tags, xml attribute names, member names) *)\n")
+    body = "Definition name_strings : list str := [\n " + ";\n ".join(cstr(s) for s in T.names) + "\n].\n"
+    body += "\n(* (class id, declared xml attribute name, a name with the same local part that is not declared) *)\n"
+    body += "Definition lookalike_attrs : list (N * N * N) := %s.\n" % _l(
+        [(cid, d, q) for cid, la in enumerate(T.look_attrs) for d, _k, q in la], lambda t: "(%d,%d,%d)" % t)
+    body += "\n(* (class id, declared child tag key, a tag with the same local part that is not a key) *)\n"
+    body += "Definition lookalike_kids : list (N * N * N) := %s.\n" % _l(
+        [(cid, d, q) for cid, lk in enumerate(T.look_kids) for d, _k, q in lk], lambda t: "(%d,%d,%d)" % t)
+    return head + body
 
 
 def _qual(k):
@@ -449,8 +514,10 @@ def regen(save=True):
     """read the tables, write coq/Gen/SchemaTables.v (only if changed) and the intern table"""
     T = read_tables()
     text = render(T)
+    names_text = render_names(T)
     if save:
         write_if_changed(COQ + "/Gen/SchemaTables.v", text)
+        write_if_changed(COQ + "/Gen/SchemaNames.v", names_text)
         os.makedirs(WORK, exist_ok=True)
         with open(WORK + "/schema_intern.json", "w") as f:
             json.dump({"names": T.names, "classes": T.qname}, f)
